@@ -157,11 +157,33 @@ func SolveAll(all []*Obligation, solv *Solvers) {
 		}(o)
 	}
 	wg.Wait()
-	qs := make([]string, len(todo))
+	var qs, ps []string
+	var qi, pi []int
 	for i, o := range todo {
-		qs[i] = o.Query
+		if o.Canary {
+			ps = append(ps, o.Query)
+			pi = append(pi, i)
+		} else {
+			qs = append(qs, o.Query)
+			qi = append(qi, i)
+		}
 	}
-	rs := solv.SolveBatch(qs)
+	rs := make([]solverResult, len(todo))
+	var wg2 sync.WaitGroup
+	wg2.Add(2)
+	go func() {
+		defer wg2.Done()
+		for k, r := range solv.SolveBatch(qs) {
+			rs[qi[k]] = r
+		}
+	}()
+	go func() {
+		defer wg2.Done()
+		for k, r := range solv.SolveProbes(ps) {
+			rs[pi[k]] = r
+		}
+	}()
+	wg2.Wait()
 	for i, o := range todo {
 		r := rs[i]
 		o.Result, o.Solver, o.Time = r.Result, r.Solver, r.Time
